@@ -74,15 +74,44 @@ def batch_push_rows(ctx, K):
                 if e.kind != "ADD" or not isinstance(e.lst, tuple):
                     continue
                 x = mir.strip(e.key)
-                if not (isinstance(x, tuple) and x[0] == "elem" and isinstance(x[1], tuple) and x[1][0] == "iter"
-                        and isinstance(x[1][1], tuple) and x[1][1][0] == "field" and x[1][1][2] == "to"):
-                    probs.append("a key that is not an element of some mapping's output list is collected: %s" % show(x)[:60])
-                    continue
-                M = mir.strip(x[1][1][1])
                 guards = set(fx.guards_before(e))
                 if tag.startswith("L"):
                     guards |= entry_guards(K, b, int(tag[1:]))
                 conds = set()
+                piped = None
+                if isinstance(x, tuple) and x[0] == "elem" and isinstance(x[1], tuple) and x[1][0] == "iter" and isinstance(x[1][1], tuple) and x[1][1][0] in ("call", "clone"):
+                    # the loop runs over an iterator pipeline: active_mappings.iter().filter(..).flat_map(|m| m.to.iter()..)
+                    pl = tables.pipeline(ctx.body, x[1][1])
+                    if not pl["problems"] and pl.get("inner_iter") is not None and pl["elem"] == T("elem", pl["inner_iter"], None):
+                        piped = pl
+                if piped is not None:
+                    inner = piped["inner_iter"]
+                    xs = T("elem", inner, None)
+                    # conditions known for the pushed key are written over the loop's own element term: rewrite
+                    guards = {(mir.subst(a, {x: xs}) if isinstance(a, tuple) else a, v) for a, v in guards}
+                    x_loop, x = x, xs
+                    src = inner[1]
+                    if not (isinstance(src, tuple) and src[0] == "field" and src[2] == "to"):
+                        probs.append("a key that is not an element of some mapping's output list is collected: %s" % show(src)[:60])
+                        continue
+                    M = mir.strip(src[1])
+                    for a, v in piped["guards"]:
+                        guards.add((a, v))
+                        for a2, v2 in tables.expand_pure(ctx.body, ctx.F, a, v):
+                            guards.add((a2, v2))
+                    if isinstance(piped["base"], tuple) and list_of(piped["base"][1]) == "AM" and M == T("elem", piped["base"], None):
+                        conds.add("M-in-active_mappings")
+                        conds.add("every-active-mapping-and-every-output-visited")
+                else:
+                    if not (isinstance(x, tuple) and x[0] == "elem" and isinstance(x[1], tuple) and x[1][0] == "iter"
+                            and isinstance(x[1][1], tuple) and x[1][1][0] == "field" and x[1][1][2] == "to"):
+                        probs.append("a key that is not an element of some mapping's output list is collected: %s" % show(x)[:60])
+                        continue
+                    M = mir.strip(x[1][1][1])
+                # pure helper predicates (`lifts_its_outputs(m)`) stand for their conjuncts
+                for a, v in list(guards):
+                    for a2, v2 in tables.expand_pure(ctx.body, ctx.F, a, v):
+                        guards.add((a2, v2))
                 # where does M come from?
                 if isinstance(M, tuple) and M[0] == "elem" and isinstance(M[1], tuple) and M[1][0] == "iter" and list_of(M[1][1]) == "AM":
                     conds.add("M-in-active_mappings")
@@ -117,6 +146,8 @@ def batch_push_rows(ctx, K):
                         conds.add(nm)
                     if isinstance(a, tuple) and a[0] == "in" and mir.strip(a[1]) == x and list_of(a[2]) == "MO":
                         conds.add("in_MO" if v else "!in_MO")
+                    if isinstance(a, tuple) and a[0] == "in" and mir.strip(a[1]) == x and isinstance(list_of(a[2]), tuple):
+                        conds.add("in_batch" if v else "!in_batch")
                 rows.append(frozenset(conds))
     return rows, probs
 
@@ -189,12 +220,19 @@ def run(ctx):
                 srcs.add((e.lst, list_of(e.key)))
             if e.kind == "ADD" and isinstance(e.lst, tuple):
                 locals_pushed.add(e.lst)
+    for fx in K.path_fx(rb):
+        for e in fx.effects:
+            if e.kind == "OTHERMUT:take" and e.lst == "AB":
+                srcs.add((("taken", e.ev.c), "AB"))     # let to_remove = std::mem::take(&mut state.mapped_absorbed_keys)
     dkeys = {mir.strip(tx.key) for tx in A.txs if tx.fn == RAK and tx.kind == "RELEASE"}
     iterated = {list_of(kx[1][1]) for kx in dkeys if isinstance(kx, tuple) and kx[0] == "elem" and isinstance(kx[1], tuple) and kx[1][0] == "iter"}
+    iterated |= {("taken", mir.strip(kx[1][1])) for kx in dkeys if isinstance(kx, tuple) and kx[0] == "elem" and isinstance(kx[1], tuple) and kx[1][0] == "iter"
+                 and isinstance(kx[1][1], tuple) and kx[1][1][0] == "call" and method_name(kx[1][1][1]) == "take"}
     srcs = {s_ for s_ in srcs if s_[0] in iterated}
     locals_pushed = {l for l in locals_pushed if l in iterated}
     okd = len(srcs) == 1 and list(srcs)[0][1] == "AB" and not locals_pushed and all(
-        isinstance(kx, tuple) and kx[0] == "elem" and isinstance(kx[1], tuple) and kx[1][0] == "iter" and list_of(kx[1][1]) == list(srcs)[0][0] for kx in dkeys)
+        isinstance(kx, tuple) and kx[0] == "elem" and isinstance(kx[1], tuple) and kx[1][0] == "iter"
+        and (list_of(kx[1][1]) == list(srcs)[0][0] or ("taken", mir.strip(kx[1][1])) == list(srcs)[0][0]) for kx in dkeys)
     ck.ob("C05-R1", RAK, "d:released-keys-are-drawn-from-mapped_absorbed_keys", okd, detail="sources %s" % sorted(map(str, srcs)))
     # (c) context: release_all_action_keys only from the Disabled/Special arms
     callers = [c for c in ctx.callers_of(SWEEP) if "::tests::" not in c]
